@@ -1,5 +1,6 @@
 import GeomV.C03.Gen
 import GeomV.C03.LemmasPip
+import GeomV.C03.ModelGC
 import Mathlib.Tactic.Ring
 import Mathlib.Algebra.Order.Field.Rat
 /-!
@@ -977,6 +978,43 @@ theorem C03_tie_op_Area_MultiPolygon (mp : MPoly) : Gen.op_Area_MultiPolygon mp 
   · intro s i x
     simp [C03_tie_op_Area_Polygon]
 
+/-! ### `op.Area` on a GeometryCollection (open recursion: the function's call of itself on a member of unknown
+dynamic type is the parameter `self` of the regenerated case) -/
+
+theorem opAreaAcc_foldl (gs : List (Geom Rat)) (a : Rat) :
+    opAreaAcc gs a = gs.foldl (fun a g => a + opAreaGeom g) a := by
+  induction gs generalizing a with
+  | nil => simp [opAreaAcc]
+  | cons g t ih => simp [opAreaAcc, ih]
+
+/-- `op.Area`, case GeometryCollection: with `self` read as the model of the whole function, the regenerated case
+returns, without fault, the model's value on the collection -/
+theorem C03_tie_op_Area_GeometryCollection (gs : List (Geom Rat)) :
+    Gen.op_Area_GeometryCollection (fun g => .ok (opAreaGeom g)) gs = .ok (opAreaGeom (.collection gs)) := by
+  unfold Gen.op_Area_GeometryCollection
+  simp only [bind, Except.bind, pure, Except.pure]
+  rw [forRange_foldl (fun a g => a + opAreaGeom g)]
+  · simp [opAreaGeom, opAreaAcc_foldl]
+  · intro s i x; rfl
+
+/-- the type switch of `op.Area` assembled from its regenerated cases; a geometry no case lists leaves `a := 0.`
+and `math.Abs(a)` is returned (this line is hand-written) -/
+def opAreaSwitch (self : Geom Rat → Go.M Rat) : Geom Rat → Go.M Rat
+  | .polygon p => Gen.op_Area_Polygon p
+  | .multiPolygon mp => Gen.op_Area_MultiPolygon mp
+  | .collection gs => Gen.op_Area_GeometryCollection self gs
+  | _ => pure (absR 0)
+
+/-- **`op.Area` on every geometry**: the model `opAreaGeom` is a fixed point of the regenerated type switch —
+when the recursive calls return the model's values, so does the call, without fault -/
+theorem C03_tie_op_Area_Geom (g : Geom Rat) :
+    opAreaSwitch (fun g => .ok (opAreaGeom g)) g = .ok (opAreaGeom g) := by
+  cases g with
+  | polygon p => simp [opAreaSwitch, opAreaGeom, C03_tie_op_Area_Polygon]
+  | multiPolygon mp => simp [opAreaSwitch, opAreaGeom, C03_tie_op_Area_MultiPolygon]
+  | collection gs => exact C03_tie_op_Area_GeometryCollection gs
+  | _ => simp [opAreaSwitch, opAreaGeom, absR, pure, Except.pure]
+
 /-! ## bounds.go -/
 
 /-- `(*Bounds).Area` (non-nil receiver) -/
@@ -1023,6 +1061,40 @@ theorem C03_tie_op_Length_MultiLineString (ml : List (List (Pt α))) :
   rw [forRange_foldl (fun acc l => acc + lineStringLength l)]
   intro s i x
   simp [C03_tie_op_Length_LineString]
+
+/-! ### `op.Length` on a GeometryCollection (open recursion as for `op.Area`) -/
+
+theorem opLengthAcc_foldl (gs : List (Geom α)) (a : α) :
+    opLengthAcc gs a = gs.foldl (fun a g => a + opLengthGeom g) a := by
+  induction gs generalizing a with
+  | nil => simp [opLengthAcc]
+  | cons g t ih => simp [opLengthAcc, ih]
+
+/-- `op.Length`, case GeometryCollection: with `self` read as the model of the whole function, the regenerated case
+returns, without fault, the model's value on the collection -/
+theorem C03_tie_op_Length_GeometryCollection (gs : List (Geom α)) :
+    Gen.op_Length_GeometryCollection (fun g => .ok (opLengthGeom g)) gs = .ok (opLengthGeom (.collection gs)) := by
+  unfold Gen.op_Length_GeometryCollection
+  simp only [bind, Except.bind, pure, Except.pure]
+  rw [forRange_foldl (fun a g => a + opLengthGeom g)]
+  · simp [opLengthGeom, opLengthAcc_foldl]
+  · intro s i x; rfl
+
+/-- the type switch of `op.Length` assembled from its regenerated cases; a geometry no case lists leaves `l := 0.` -/
+def opLengthSwitch (self : Geom α → Go.M α) : Geom α → Go.M α
+  | .lineString l => Gen.op_Length_LineString l
+  | .multiLineString ml => Gen.op_Length_MultiLineString ml
+  | .collection gs => Gen.op_Length_GeometryCollection self gs
+  | _ => pure (RNum.ofNat 0)
+
+/-- **`op.Length` on every geometry**: `opLengthGeom` is a fixed point of the regenerated type switch -/
+theorem C03_tie_op_Length_Geom (g : Geom α) :
+    opLengthSwitch (fun g => .ok (opLengthGeom g)) g = .ok (opLengthGeom g) := by
+  cases g with
+  | lineString l => simp [opLengthSwitch, opLengthGeom, C03_tie_op_Length_LineString]
+  | multiLineString ml => simp [opLengthSwitch, opLengthGeom, C03_tie_op_Length_MultiLineString]
+  | collection gs => exact C03_tie_op_Length_GeometryCollection gs
+  | _ => simp [opLengthSwitch, opLengthGeom, pure, Except.pure]
 
 /-- `LineString.Length` as regenerated returns, without fault, the model's `lineStringLength` -/
 theorem C03_tie_LineString_Length (l : List (Pt α)) : Gen.lineString_Length l = .ok (lineStringLength l) := by
